@@ -12,15 +12,21 @@ if [ "$REPO" != "/repo" ]; then SUF="-$(echo -n "$REPO" | md5sum | cut -c1-8)"; 
 BDIR="$HERE/.build/$FLAV$SUF"
 mkdir -p "$HERE/.build"
 case "$FLAV" in
-  san)   FLAGS="-O1 -g -fno-omit-frame-pointer -fsanitize=address,undefined -fno-sanitize-recover=all -DRIME_VERIF -Wno-error" ; LFLAGS="-fsanitize=address,undefined" ;;
-  tsan)  FLAGS="-O1 -g -fno-omit-frame-pointer -fsanitize=thread -DRIME_VERIF -Wno-error" ; LFLAGS="-fsanitize=thread" ;;
+  # NDEBUG in every flavour, as in the repository's own RelWithDebInfo build: DLOG statements are compiled out.  Some of
+  # them have side effects (Composition::GetDebugText fetches the first candidate of every segment), so a build that
+  # evaluates them behaves differently from the one users and the test suite run — it hid a seeded change to
+  # Context::HasMenu (DESIGN.md 8.5).
+  san)   FLAGS="-O1 -g -DNDEBUG -fno-omit-frame-pointer -fsanitize=address,undefined -fno-sanitize-recover=all -DRIME_VERIF -Wno-error" ; LFLAGS="-fsanitize=address,undefined" ;;
+  tsan)  FLAGS="-O1 -g -DNDEBUG -fno-omit-frame-pointer -fsanitize=thread -DRIME_VERIF -Wno-error" ; LFLAGS="-fsanitize=thread" ;;
   plain) FLAGS="-O1 -g -DNDEBUG -DRIME_VERIF -Wno-error" ; LFLAGS="" ;;
-  cov)   FLAGS="-O0 -g --coverage -DRIME_VERIF -Wno-error" ; LFLAGS="--coverage" ;;
+  cov)   FLAGS="-O0 -g -DNDEBUG --coverage -DRIME_VERIF -Wno-error" ; LFLAGS="--coverage" ;;
   *) echo "unknown flavour $FLAV" >&2; exit 2 ;;
 esac
 exec 9>"$HERE/.build/$FLAV$SUF.lock"
 flock 9
-if [ ! -f "$BDIR/build.ninja" ] || ! grep -q "CMAKE_HOME_DIRECTORY:INTERNAL=$REPO\$" "$BDIR/CMakeCache.txt" 2>/dev/null; then
+# (a build directory configured with other flags is configured again)
+if [ ! -f "$BDIR/build.ninja" ] || ! grep -q "CMAKE_HOME_DIRECTORY:INTERNAL=$REPO\$" "$BDIR/CMakeCache.txt" 2>/dev/null \
+   || ! grep -qF "CMAKE_CXX_FLAGS:STRING=$FLAGS" "$BDIR/CMakeCache.txt" 2>/dev/null; then
   rm -rf "$BDIR"
   cmake -G Ninja -S "$REPO" -B "$BDIR" -DCMAKE_BUILD_TYPE=Debug -DBUILD_TEST=OFF -DBUILD_SAMPLE=OFF \
     -DCMAKE_CXX_FLAGS="$FLAGS" -DCMAKE_C_FLAGS="$FLAGS" \
